@@ -17,8 +17,35 @@ import ast
 import json
 import os
 
-from ..common import Report, VERIF, AnalysisError, src, rel
+from ..common import Report, VERIF, REPO, AnalysisError, src, rel
 from ..match import match_expr, match_stmts, strip_doc
+
+
+def check_cc_import(rep, rule):
+    """The summary STRABS uses for util.get_cc_module (the submodule `name` of the country package, None when missing) rests on
+    the import call loading that submodule: `__import__(pkg, ..., [name])` with the name in the from-list, or an import of the
+    dotted path that contains the name.  An import of the package alone returns it without its plain submodules (es.iban,
+    no.iban, ...) unless something else imported them before, and getattr(..., None) then silently disables the dispatch."""
+    import ast as _ast
+    from ..common import src as _src
+    path = os.path.join(REPO, 'stdnum', 'util.py')
+    with open(path, encoding='utf-8') as fh:
+        tree = _ast.parse(fh.read())
+    fn = next((n for n in tree.body if isinstance(n, _ast.FunctionDef) and n.name == 'get_cc_module'), None)
+    if fn is None or len(fn.args.args) < 2:
+        raise AnalysisError('stdnum/util.py: get_cc_module(cc, name) vanished')
+    name = fn.args.args[1].arg
+    imports = [c for c in _ast.walk(fn) if isinstance(c, _ast.Call) and _src(c.func) in ('__import__', 'importlib.import_module', 'import_module', 'importlib.__import__')]
+    if not imports:
+        raise AnalysisError('stdnum/util.py: get_cc_module() has no import call')
+    for c in imports:
+        mentions = lambda e: any(isinstance(x, _ast.Name) and x.id == name for x in _ast.walk(e))
+        fromlist = c.args[3] if len(c.args) > 3 else next((k.value for k in c.keywords if k.arg == 'fromlist'), None)
+        ok = (fromlist is not None and mentions(fromlist)) or (c.args and mentions(c.args[0]))
+        rep.check(ok, rule, 'stdnum/util.py', 'get_cc_module', _src(c)[:120], c.lineno,
+                  'the import call does not name the submodule %r (neither in a from-list nor in the imported path): for country packages that do not '
+                  'import it themselves getattr() returns None unless another import happened earlier, and the national rules are skipped' % name,
+                  what='import loads the named submodule')
 
 
 def check(tier):
@@ -31,6 +58,7 @@ def check(tier):
                               'direction "constituent shape is not rejected" plus the return-only-through-constituent shape rule'])
     with open(os.path.join(VERIF, 'specs', 'aggregates.json')) as fh:
         spec = json.load(fh)
+    check_cc_import(rep, 'C09.dispatch-import')
     I = get_interp()
     prog = I.prog
     members = spec['eu_member_states']
